@@ -180,6 +180,11 @@ func (x *Run) callFunc(fr *Frame, st *State, fn *ssa.Function, args []Val, bindi
 		return outs
 	}
 	pp := pkgPathOf(fn)
+	if x.spec.detFns[name] && !(fr.con != nil && fr.con.Target == fn) {
+		ret := x.ufApply(st, "ext."+x.fnShort(fn), args, fn.Signature.Results())
+		st.events = append(st.events, Event{Name: "call:" + fn.String(), Args: args, Ret: ret})
+		return single(st, ret)
+	}
 	internal := strings.HasPrefix(pp, frpPrefix) || x.spec.inlineExt(fn, pp)
 	if fr.inPure() && !internal {
 		// deterministic abstraction inside specs
@@ -292,6 +297,7 @@ func (x *Run) flushZeroAxioms(st *State) {
 		}
 		ks := mapKeySortOfArr(vs)
 		st.assume(fmt.Sprintf("(forall ((m Int) (k %s)) (! (=> (not (select (select %s m) k)) (= (select (select %s m) k) %s)) :pattern ((select (select %s m) k))))", ks, x.arr(st, dom), x.arr(st, name), zero, x.arr(st, name)))
+		st.assume(fmt.Sprintf("(forall ((k %s)) (! (not (select (select %s 0) k)) :pattern ((select (select %s 0) k))))", ks, x.arr(st, dom), x.arr(st, dom)))
 	}
 	st.pendingZero = nil
 }
@@ -632,6 +638,7 @@ func (x *Run) modelSortFunc(fr *Frame, st *State, cc *ssa.CallCommon, args []Val
 	in := func(v string) string { return fmt.Sprintf("(and (<= 0 %s) (< %s %s))", v, v, n) }
 	st.assume(fmt.Sprintf("(forall ((i Int)) (! (=> %s (and %s (= (%s (%s i)) i) (= (select %s i) (select %s (%s i))))) :pattern ((select %s i))))", in("i"), in(app(pi, "i")), ip, pi, x.sliceArr(r), x.sliceArr(s), pi, x.sliceArr(r)))
 	st.assume(fmt.Sprintf("(forall ((j Int)) (! (=> %s (and %s (= (%s (%s j)) j))) :pattern ((%s j))))", in("j"), in(app(ip, "j")), pi, ip, ip))
+	st.assume(fmt.Sprintf("(forall ((i Int) (j Int)) (! (=> (and %s %s (= (%s i) (%s j))) (= i j)) :pattern ((%s i) (%s j))))", in("i"), in("j"), pi, pi, pi, pi))
 	// sortedness w.r.t. the real comparator closure
 	bi := x.d.fresh("bi", SInt)
 	bj := x.d.fresh("bj", SInt)
